@@ -73,6 +73,8 @@ fn stage_class(s: &str) -> &str {
 
 static PANICS: Mutex<Vec<(String, String)>> = Mutex::new(Vec::new());
 static CUR_STAGE: AtomicUsize = AtomicUsize::new(0);
+/// time spent executing (not compiling) in the last run stage; u64::MAX = execution was not reached
+static EXEC_MS: std::sync::atomic::AtomicU64 = std::sync::atomic::AtomicU64::new(u64::MAX);
 
 fn norm_loc(file: &str, line: u32) -> String {
     let f = if let Some(i) = file.find("/repo/") {
@@ -118,6 +120,8 @@ struct StageRes {
     loc: String,
     msg: String,
     ms: u128,
+    /// run stage only: milliseconds spent executing the compiled program
+    exec_ms: u64,
 }
 
 fn scan(text: &str) -> Option<&'static str> {
@@ -161,7 +165,7 @@ fn run_stage(stage: &'static str, f: impl FnOnce() -> Result<String, String>) ->
             },
         },
     };
-    StageRes { stage, kind, loc, msg, ms }
+    StageRes { stage, kind, loc, msg, ms, exec_ms: 0 }
 }
 
 fn compile_stage(src: &str, mode: PreEvalMode) -> Result<String, String> {
@@ -223,7 +227,19 @@ fn run_all(src: &str, mask: u32, argseed: u64, nargs: usize) -> Vec<StageRes> {
                         env.push(gen_value(&mut r, &cfg, 0));
                     }
                 }
-                let res = env.run_str(src).map(|_| ()).map_err(|e| e.to_string());
+                // as Uiua::run_str (compile_run): compile with the safe backend, then run the assembly; only the
+                // execution is under the execution limit, so it is timed separately
+                EXEC_MS.store(u64::MAX, Ordering::SeqCst);
+                let mut comp = Compiler::with_backend(SafeSys::default());
+                let res = match comp.load_str(src).map(|c| c.finish()) {
+                    Err(e) => Err(e.to_string()),
+                    Ok(asm) => {
+                        let t = Instant::now();
+                        let r = env.run_asm(asm).map_err(|e| e.to_string());
+                        EXEC_MS.store(t.elapsed().as_millis() as u64, Ordering::SeqCst);
+                        r
+                    }
+                };
                 // showing the results is part of what a user does with them
                 let stack = env.take_stack();
                 let mut info = String::new();
@@ -240,6 +256,11 @@ fn run_all(src: &str, mask: u32, argseed: u64, nargs: usize) -> Vec<StageRes> {
                 res.map(|_| info)
             }),
         };
+        let mut r = r;
+        if *bit == ST_RUN {
+            let e = EXEC_MS.load(Ordering::SeqCst);
+            r.exec_ms = if e == u64::MAX { 0 } else { e };
+        }
         out.push(r);
     }
     out
@@ -257,7 +278,8 @@ fn verdict_json(rs: &[StageRes]) -> String {
             write!(s, "[{},{},{},{},{}]", jstr(r.stage), jstr(r.kind), r.ms, jstr(&r.loc), jstr(&r.msg)).unwrap();
         }
     }
-    s.push_str("]}");
+    let exec: u64 = rs.iter().map(|r| r.exec_ms).max().unwrap_or(0);
+    write!(s, "],\"exec_ms\":{exec}}}").unwrap();
     s
 }
 
@@ -358,7 +380,13 @@ fn worker_main() {
 fn pool_hang_s() -> u64 {
     std::env::var("C09_POOL_HANG_S").ok().and_then(|s| s.parse().ok()).unwrap_or(10)
 }
-const CONFIRM_HANG_S: u64 = 40;
+/// a stage is a wedge when it gives no result within this time when re-run alone (40 s quick, 150 s thorough:
+/// super-linear stages on 10^5-sized inputs finish in 10-60 s and are reported as slow, not hung)
+fn confirm_hang_s() -> u64 {
+    std::env::var("C09_CONFIRM_HANG_S").ok().and_then(|s| s.parse().ok()).unwrap_or(40)
+}
+/// a run that returns later than this under the 2 s execution limit did not respect the limit
+const RUN_OVERRUN_MS: u64 = 10000;
 
 #[derive(Clone, Debug)]
 struct Finding {
@@ -375,6 +403,8 @@ struct Verdict {
     stages: Vec<(String, String, u64, String)>, // (stage, kind, ms, message)
     findings: Vec<Finding>,
     died: bool,
+    /// milliseconds the run stage spent executing (compilation excluded)
+    exec_ms: u64,
 }
 
 struct Worker {
@@ -559,6 +589,9 @@ impl Worker {
         if j.get("lost").is_some() {
             v.findings.push(Finding { base: "lost-thread".into(), stage: "?".into(), kind: "lost".into(), loc: String::new(), msg: "worker thread ended without a verdict".into() });
             return;
+        }
+        if let Some(e) = j.get("exec_ms").and_then(|x| x.as_u64()) {
+            v.exec_ms = v.exec_ms.max(e);
         }
         let Some(arr) = j.get("st").and_then(|x| x.as_array()) else { return };
         for e in arr {
@@ -1199,14 +1232,21 @@ fn known_inputs() -> Vec<(String, String)> {
         ("r4:rerank-huge2", "☇1e18 ⇡5".to_string()),
         ("r4:rerank-under-huge", "⍜(☇ 1e10)⇌ [1 2 3 4 5]".to_string()),
         ("r4:stencil-huge", "⬚0⧈□ 1e10 [1 2 3 4 5]\n⬚∞⧈□ 1e16 ↯3_0 0".to_string()),
-        // found by the thorough tier after round 4, still open
-        ("open:tuples-general-huge", "⧅(∘≤)1e10 4".to_string()),
-        ("open:join-fill-range-huge", "⬚0⊂ ⇡1e10_0 ↯3_0 0".to_string()),
-        ("open:anti-pick-overflow", "⬚0⌝⊡1e19 ↯3_0 0".to_string()),
-        ("open:reshape-inf-overflow", "↯1e10_1e10_∞ 9".to_string()),
-        ("open:reshape-inf-overflow2", "↯1e10_∞_1e10 []".to_string()),
-        ("open:table-sided-sub", "⊞₋₁(°+) 1 2".to_string()),
-        ("open:constant-bad-apple", "Bad".to_string()),
+        // found by the thorough tier after round 4, repaired in round 5: must stay quiet
+        ("r5:tuples-general-huge", "⧅(∘≤)1e10 4".to_string()),
+        ("r5:join-fill-range-huge", "⬚0⊂ ⇡1e10_0 ↯3_0 0".to_string()),
+        ("r5:anti-pick-overflow", "⬚0⌝⊡1e19 ↯3_0 0".to_string()),
+        ("r5:reshape-inf-overflow", "↯1e10_1e10_∞ 9".to_string()),
+        ("r5:reshape-inf-overflow2", "↯1e10_∞_1e10 []".to_string()),
+        ("r5:table-sided-sub", "⊞₋₁(°+) 1 2".to_string()),
+        ("r5:constant-bad-apple", "Bad".to_string()),
+        ("r5:couple-fill-range-huge", "⬚0⊟ ⇡1e10_0 ↯3_0 0".to_string()),
+        ("r5:table-neg-sub-list", "⊞₋₂⊟ [1 2] [3 4]".to_string()),
+        ("r5:nested-rows-26", format!("{}+1 [1]", "≡".repeat(26))),
+        ("r5:nested-fill-40", format!("{}+1 [1]", "⬚0".repeat(40))),
+        // still open after the last round
+        ("open:stencil-fill-empty-rows", "⬚0⧈□ 65536 ↯3_0 0".to_string()),
+        ("open:nested-under", format!("{}⊢ [1]", "⍜".repeat(26))),
     ];
     v.into_iter().map(|(n, s)| (n.to_string(), s)).collect()
 }
@@ -1569,6 +1609,7 @@ fn search(n: usize, thorough: bool) {
     // ---- shrink the first input of each distinct key (in parallel); hangs are confirmed with a long timeout
     let keys: Vec<(String, usize, Finding, Vec<String>)> = first_of.iter().map(|(k, (i, f, st))| (k.clone(), *i, f.clone(), st.clone())).collect();
     let shrunk: Mutex<BTreeMap<String, (String, usize, bool)>> = Mutex::new(BTreeMap::new());
+    let moved_to: Mutex<BTreeMap<String, (String, String)>> = Mutex::new(BTreeMap::new());
     {
         let next = AtomicUsize::new(0);
         std::thread::scope(|sc| {
@@ -1583,15 +1624,42 @@ fn search(n: usize, thorough: bool) {
                         let (key, i, f, _) = &keys[k];
                         let inp = &inputs[*i];
                         let budget = if inp.src.len() > 5000 { 40 } else { 160 };
+                        let mut moved: Option<(String, String)> = None;
                         let (s, ev, confirmed) = if f.kind == "hang" {
-                            let m: u32 = STAGES.iter().filter(|s| s.1 == f.stage).map(|s| s.0).sum();
-                            let mut w2 = Worker::with_hang("64", CONFIRM_HANG_S);
-                            let again = w2.eval(&inp.src, m | (inp.mask & !ST_ALL), inp.argseed, inp.nargs);
-                            (inp.src.clone(), 1, again.findings.iter().any(|x| x.kind == "hang"))
+                            // re-run the flagged stage alone with a long time-out; if it turns out slow but finishes, go on with
+                            // the later stages (they were never reached), so that a wedge behind a slow stage is not missed
+                            let flags = inp.mask & !ST_ALL;
+                            let from = STAGES.iter().position(|s| s.1 == f.stage).unwrap_or(0);
+                            let mut w2 = Worker::with_hang("64", confirm_hang_s());
+                            let mut confirmed = false;
+                            let mut ev = 0;
+                            for (bit, name) in STAGES.iter().skip(from) {
+                                if inp.mask & bit == 0 {
+                                    continue;
+                                }
+                                let again = w2.eval(&inp.src, bit | flags, inp.argseed, inp.nargs);
+                                ev += 1;
+                                if again.findings.iter().any(|x| x.kind == "hang") {
+                                    confirmed = true;
+                                    if *name != f.stage {
+                                        moved = Some((name.to_string(), format!("no result within {} s", confirm_hang_s())));
+                                    }
+                                    break;
+                                }
+                                if *name == "run" && again.exec_ms > RUN_OVERRUN_MS {
+                                    let m = again.stages.iter().find(|x| x.0 == "run").map(|x| x.3.clone()).unwrap_or_default();
+                                    confirmed = true;
+                                    moved = Some(("run".to_string(), format!("execution returned after {} ms under a {} s execution limit ({})", again.exec_ms, EXEC_LIMIT_S, one_line(&m, 60))));
+                                }
+                            }
+                            (inp.src.clone(), ev, confirmed)
                         } else {
                             let (s, ev) = shrink(&mut w, inp, &f.base, &f.stage, budget);
                             (s, ev, true)
                         };
+                        if let Some(mv) = moved {
+                            moved_to.lock().unwrap().insert(key.clone(), mv);
+                        }
                         shrunk.lock().unwrap().insert(key.clone(), (s, ev, confirmed));
                     }
                 });
@@ -1599,6 +1667,7 @@ fn search(n: usize, thorough: bool) {
         });
     }
     let shrunk = shrunk.into_inner().unwrap();
+    let moved_to = moved_to.into_inner().unwrap();
     let mut shrink_evals = 0;
     let mut slow_not_hung: Vec<String> = Vec::new();
     for (key, i, f, stages) in &keys {
@@ -1610,6 +1679,14 @@ fn search(n: usize, thorough: bool) {
             continue;
         }
         let mut fullkey = key.clone();
+        let mut f = f.clone();
+        if let Some((st, msg)) = moved_to.get(key) {
+            // the wedge is in a later stage than the one the pool timed out in
+            fullkey = format!("hang/{}#{}", stage_class(st), key.split_once('#').map(|x| x.1).unwrap_or(""));
+            f.stage = st.clone();
+            f.msg = msg.clone();
+        }
+        let f = &f;
         if f.kind == "abort" && inp.label.is_empty() {
             fullkey = format!("{}#{}", key, rle_sig(&s));
         }
@@ -1823,6 +1900,9 @@ fn main() {
             if let Some(h) = arg_str("--hang") {
                 unsafe { std::env::set_var("C09_POOL_HANG_S", h) };
             }
+            if let Some(h) = arg_str("--confirm") {
+                unsafe { std::env::set_var("C09_CONFIRM_HANG_S", h) };
+            }
             search(n, thorough);
         }
         "tie" => tie(),
@@ -1838,6 +1918,7 @@ fn main() {
             for (st, k, ms, m) in &v.stages {
                 println!("{st:16} {k:8} {ms} ms  {m}");
             }
+            println!("exec_ms {}", v.exec_ms);
             for f in &v.findings {
                 println!("FINDING {} [{}] {} :: {}", f.base, f.kind, f.loc, f.msg);
             }
